@@ -224,6 +224,15 @@ func validateRaw(msg messages.Builder, d []byte, strict bool) error {
 	}
 	bodyLength := blVal.Value().(int)
 
+	// The arithmetic below takes for granted that BeginString and BodyLength open the message
+	// and that the CheckSum field found above is the one closing it: check it.
+	head := bytes.Join([][]byte{bs.ToBytes(), bl.ToBytes(), nil}, fix.Delimiter)
+	tail := append(cs.ToBytes(), fix.Delimiter...)
+	if bs.ToBytes() == nil || cs.ToBytes() == nil || len(d) < len(head)+len(tail) ||
+		!bytes.HasPrefix(d, head) || !bytes.HasSuffix(d, tail) || d[len(d)-len(tail)-1] != fix.Delimiter[0] {
+		return fmt.Errorf("invalid framing: BeginString and BodyLength must come first, CheckSum last")
+	}
+
 	offset := len(bs.ToBytes()) + 1 // extra delimiter
 	offset += len(bl.ToBytes()) + 1 // extra delimiter
 	length := len(d) - offset
